@@ -163,7 +163,8 @@ class EndToEnd(NativeCase):
         blocks = list(corpus.BASE_BLOCKS) + list(EDGE_BLOCKS) + list(MSIZE_BLOCKS)
         # deterministic pseudo-random blocks (arithmetic / stack / memory / storage mixed); run under the first option sets only
         fuzz = corpus.random_blocks(60 if tier == 'quick' else 1200, seed=17) + corpus.random_blocks(40 if tier == 'quick' else 800, seed=18, profile='memory')
-        shapes = corpus.rule_shape_blocks(1 if tier == 'quick' else 2) + fuzz
+        shared = corpus.shared_rule_shape_blocks()
+        shapes = corpus.rule_shape_blocks(1 if tier == 'quick' else 2) + (shared[::7] if tier == 'quick' else shared) + fuzz
         changed = 0
         shapes_set = set(shapes)
         for b in blocks + shapes:
